@@ -115,6 +115,13 @@ Theorem C09_no_index_removal_after_failed_save : forall pl ph R i r,
   run_okf pl ph true R ((RmI i, true) :: r) = false.
 Proof. exact no_index_removal_after_failed_save. Qed.
 
+(* ... and after a failed removal of an obsolete index an accepted trace removes no old pack (the pack
+   removal that follows can only be a phase-A removal of an unindexed pack). *)
+Theorem C09_no_pack_removal_after_failed_index_removal : forall pl ph sf R i p r,
+  run_okf2 pl ph sf false R ((RmI i, false) :: (RmP p, true) :: r) = true ->
+  exists q, step_ok pl ph R (RmP p) = Some q /\ q <> PhC.
+Proof. exact no_pack_removal_after_failed_index_removal. Qed.
+
 Theorem C09_fault_oracle_sound : forall R0 used pl ftr rep c1 c2 c3,
   check_case (CFault R0 used pl false ftr rep c1 c2 c3) = 0%nat ->
   (forall n, Consistent (frun R0 (firstn n ftr)) used) /\
@@ -123,6 +130,7 @@ Proof. exact check_fault_sound. Qed.
 
 Print Assumptions C09_prune_fault_safe.
 Print Assumptions C09_no_index_removal_after_failed_save.
+Print Assumptions C09_no_pack_removal_after_failed_index_removal.
 Print Assumptions C09_fault_oracle_sound.
 Print Assumptions C09_model_plan_valid.
 Print Assumptions C09_model_plan_prefix_safe.
